@@ -350,6 +350,7 @@ impl NetCfg {
     /// Build the network through the public API. Panics (like the library) if the
     /// configuration is rejected; callers run this under `catch_unwind`.
     pub fn build(&self) -> network::Network {
+        crate::exec::set_phase("build:layers");
         let mut net = network::Network::new(self.input.to_lib());
         for layer in &self.layers {
             match layer {
@@ -379,6 +380,7 @@ impl NetCfg {
                 ),
             }
         }
+        crate::exec::set_phase("build:connect");
         for (from, to) in &self.connects {
             net.connect(*from, *to);
         }
@@ -387,8 +389,10 @@ impl NetCfg {
         }
         net.set_accumulation(self.skip_acc.to_lib(), self.loop_acc.to_lib());
         if let Some(opt) = &self.optimizer {
+            crate::exec::set_phase("build:optimizer");
             net.set_optimizer(opt.to_lib());
         }
+        crate::exec::set_phase("build:done");
         net.set_objective(self.objective.to_lib(), self.clamp);
         net
     }
